@@ -84,6 +84,55 @@ def find_witness(kind, prop, repo, depth, seed):
         shutil.rmtree(d, ignore_errors=True)
 
 
+KANI_BOUNDS = {
+    'dense_step_small': 'DenseVecStorage<u16>: every well-formed state with <= 2 elements over indices < 3; one insert or remove; then every slot re-read and the dense invariant re-checked',
+    'dense_step': 'DenseVecStorage<u16>: every well-formed state with <= 3 elements over indices < 4; one arbitrary raw operation (insert/remove/get_mut/get); whole-view re-read + dense invariant + dense slice is a permutation',
+    'dense_clean': 'DenseVecStorage<u16>: every well-formed state with <= 3 elements over indices < 4; clean() empties all three tables',
+    'vec_step': 'VecStorage<u16>: every vector of length <= 4 with any occupied subset; one arbitrary raw operation; slice view agrees at occupied indices; then clean()',
+    'default_vec_step': 'DefaultVecStorage<u16>: every vector of length <= 4 whose unoccupied slots hold Default; one arbitrary raw operation; occupied = value, unoccupied = Default; then clean()',
+    'own_vec': 'VecStorage<Tok> destructor ledger: <= 2 symbolic inserts over indices < 3, one arbitrary operation (insert/remove/drop/overwrite), clean(true mask), drop: each token dropped xor handed back exactly once',
+    'own_dense': 'DenseVecStorage<Tok> destructor ledger: same scenario as own_vec',
+    'own_null': 'NullStorage<Z> (zero-sized, counting destructor): 3 arbitrary operations over indices < 3, clean(true mask): destructor runs + handed back == inserted',
+    'own_drain': 'MaskedStorage<Tok> with VecStorage and the REAL hibitset BitSet: <= 2 components, Drain join opened, a symbolic subset fetched, storage dropped: ledger balanced',
+}
+
+
+def run_kani(cfg_k, tier, repo):
+    """bounded stand-in: returns list of dict(harness, status in ok|failed|undecided, detail, time_s, checks)"""
+    hs = list(cfg_k.get('quick', [])) + (list(cfg_k.get('thorough', [])) if tier == 'thorough' else [])
+    if not hs:
+        return [], ''
+    files = ':'.join(os.path.join(ROOT, 'kani', f) for f in cfg_k['files'])
+    out = tempfile.mkdtemp(prefix='specs-verif.kaniout.', dir=SCRATCH_ROOT)
+    cmd = [os.path.join(ROOT, 'kani', 'run_kani.sh'), repo, files, out, str(cfg_k.get('timeout', 2400))] + hs
+    res = []
+    try:
+        subprocess.run(cmd, capture_output=True, text=True)
+        for h in hs:
+            try:
+                log = open(os.path.join(out, h + '.log'), errors='replace').read()
+            except Exception:
+                log = ''
+            m = re.search(r'\*\* (\d+) of (\d+) failed', log)
+            t = re.search(r'Verification Time: ([0-9.]+)s', log)
+            rec = dict(harness=h, bound=KANI_BOUNDS.get(h, ''), checks=int(m.group(2)) if m else 0,
+                       time_s=float(t.group(1)) if t else None)
+            if 'VERIFICATION:- SUCCESSFUL' in log:
+                rec['status'] = 'ok'
+            elif 'VERIFICATION:- FAILED' in log and m and int(m.group(1)) > 0 and 'out of memory' not in log:
+                rec['status'] = 'failed'
+                fc = re.findall(r'Failed Checks: ([^\n]*)', log)
+                descr = re.findall(r'(Check \d+: [^\n]*\n\s*- Status: FAILURE\n\s*- Description: [^\n]*\n\s*- Location: [^\n]*)', log)
+                rec['detail'] = '\n'.join(fc[:10]) + '\n' + '\n'.join(descr[:6])
+            else:
+                rec['status'] = 'undecided'
+                rec['detail'] = log[-1500:]
+            res.append(rec)
+    finally:
+        shutil.rmtree(out, ignore_errors=True)
+    return res, ' '.join(cmd[:2]) + ' <scratch copy of repo> ... ' + ' '.join(hs) + '   # cargo kani --no-default-features -Z function-contracts -Z stubbing --harness <h>'
+
+
 def replay_file(path, repo):
     r = load_json(path, None)
     if r is None:
@@ -148,7 +197,8 @@ def main(argv):
         trusted += g.trusted
         if out['status'] in ('error', 'rlimit'):
             undecided += out['undecided']
-        mine = {k: v for k, v in g.obligations.items() if prop in v['props']}
+        also = [re.compile(x) for x in cfg.get('also', [])]
+        mine = {k: v for k, v in g.obligations.items() if prop in v['props'] or any(r.search(k) for r in also)}
         base = set(baseline.get(prop, {}).get(uname, []))
         for b in base:
             if b not in mine:
@@ -185,6 +235,13 @@ def main(argv):
             if vacuous:
                 undecided.append('vacuous precondition (assert(false) verified at body start): %s' % vacuous)
 
+    # ---- bounded stand-in (Kani): reported separately, never counted under obligations/discharged
+    bounded, kani_cmd = [], ''
+    if cfg.get('kani'):
+        bounded, kani_cmd = run_kani(cfg['kani'], tier, repo)
+        for b in bounded:
+            if b['status'] == 'undecided':
+                undecided.append('kani harness %s undecided (timeout / out of memory / build error): %s' % (b['harness'], (b.get('detail') or '')[-300:]))
     # ---- known findings
     kf = [f for f in known.get('findings', []) if f.get('property') == prop]
     real = []
@@ -198,6 +255,7 @@ def main(argv):
         else:
             real.append((uname, ob, diags, g))
 
+    kani_fail = [b for b in bounded if b['status'] == 'failed']
     exit_code = 0
     lines = []
     for (hit, ob) in known_hits:
@@ -226,15 +284,27 @@ def main(argv):
             tail = '' if (witness and witness.get('found')) else ' no-failing-input-found'
             lines.append('VIOLATION property=%s replay=%s%s' % (prop, rp, tail))
         exit_code = 1
-    elif undecided:
+    if kani_fail and not undecided:
+        for b in kani_fail:
+            rp = os.path.join(EVID, 'replay', '%s-kani_%s.json' % (prop, b['harness']))
+            with open(rp, 'w') as f:
+                json.dump(dict(property=prop, obligation='kani::' + b['harness'], kind='bounded harness (CBMC)', bound=b['bound'],
+                               verifier='kani 0.68 / cbmc 6.11', verifier_message=b.get('detail', ''),
+                               replay_cmd='kani/run_kani.sh /repo kani/%s <outdir> 2400 %s   # re-runs the harness on the current tree; add --concrete-playback=print for a concrete trace' % (cfg['kani']['files'][0], b['harness'])), f, indent=1)
+            lines.append('VIOLATION property=%s replay=%s no-failing-input-found' % (prop, rp))
+        exit_code = 1
+    if exit_code == 0 and undecided:
         exit_code = 2
-    if not obligations and exit_code == 0:
+    elif exit_code == 1 and undecided:
+        exit_code = 2
+    if not obligations and not bounded and exit_code == 0:
         undecided.append('no obligations generated for this property')
         exit_code = 2
 
     wall = time.time() - t0
+    level = cfg.get('level', 'proof')
     ev = dict(
-        property_id=prop, tier=tier, seed=seed, level='proof',
+        property_id=prop, tier=tier, seed=seed, level=level,
         coverage=dict(
             obligations=len(obligations), discharged=len(discharged),
             checker_cmd=' ; '.join(cmds),
@@ -247,13 +317,15 @@ def main(argv):
             normalisations_applied=sorted(set(cov_norms)),
             not_under_contract=sorted(set(not_covered)),
             vacuity_guard=vac,
+            bounded=dict(note='BOUNDED stand-in (Kani/CBMC on the real unsafe code); not included in obligations/discharged', cmd=kani_cmd, harnesses=bounded) if bounded else None,
+            explanation=cfg.get('explanation', ''),
             undecided=undecided,
             known_findings=[h.get('what') for (h, _) in known_hits],
             witness=witness,
         ),
         assumptions=COMMON_ASSUMPTIONS + cfg.get('assumptions', []),
         wall_s=round(wall, 2),
-        violations=len(real),
+        violations=len(real) + len(kani_fail),
     )
     with open(os.path.join(EVID, prop + '.json'), 'w') as f:
         json.dump(ev, f, indent=1)
